@@ -7,6 +7,7 @@ mod collect;
 mod fam_altform;
 mod fam_builtin;
 mod fam_frame;
+mod fam_golden;
 mod fam_graph;
 mod fam_sink;
 mod fam_srcops;
@@ -118,6 +119,7 @@ fn main() {
         "threads" => fam_threads::run(&a),
         "threads-child" => fam_threads::run_child(&a),
         "frame" => fam_frame::run(&a),
+        "golden" => fam_golden::run(&a),
         "srcops" => fam_srcops::run(&a),
         "limits" => fam_srcops::run_limits(&a),
         "altform" => fam_altform::run(&a),
